@@ -80,6 +80,7 @@ func (c *Ctx) Note(s string)   { c.mu.Lock(); c.notes = append(c.notes, s); c.mu
 
 // Worker carries per-goroutine counters, merged at the end of a section.
 type Worker struct {
+	ret      *retained
 	curIdx   int64 // index being evaluated (watchdog)
 	curSince int64 // unix nanos
 	c        *Ctx
@@ -108,7 +109,15 @@ func (w *Worker) Sample(x interface{}) {
 		w.samples = append(w.samples, x)
 	}
 }
-func (w *Worker) Eval()         { w.evals++ }
+func (w *Worker) Eval() { w.evals++ }
+
+// Retained returns the worker's store of results handed out by the library (aliasing oracle).
+func (w *Worker) Retained() *retained {
+	if w.ret == nil {
+		w.ret = &retained{}
+	}
+	return w.ret
+}
 func (w *Worker) Stopped() bool { return atomic.LoadInt32(w.stop) != 0 }
 
 // Fail records a violation (or a known finding). cas must be JSON-serialisable
